@@ -167,7 +167,7 @@ type DNode struct {
 }
 type MDump struct {
 	Name string `json:"name"`
-	In   string `json:"in"`  // reference: fully-qualified names
+	In   string `json:"in"` // reference: fully-qualified names
 	Out  string `json:"out"`
 	DIn  int    `json:"din"` // dynamicgo: node ids
 	DOut int    `json:"dout"`
